@@ -7,7 +7,7 @@ from flamapy.metamodels.fm_metamodel.operations import (
 
 from .. import refsem as R
 from ..runner import Cond
-from .common import cards_conditions, indexed_shapes, totuple
+from .common import cards_conditions, indexed_shapes, totuple, pair_batch, replay_pair  # noqa: F401
 from .c14 import _index
 
 ID = 'C16'
@@ -205,6 +205,16 @@ def batches(tier, seed):
     return [('batch_native', [N, lo, lo + step]) for lo in range(0, total, step)]
 
 
+_orig_batches = batches
+
+
+def batches(tier, seed):  # noqa: F811
+    n = 3 if tier == 'quick' else 4
+    total = len(R.shapes(n)) * (len(R.shapes(n)) - 1)
+    step = total // 4 + 1
+    return _orig_batches(tier, seed) + [('batch_pairs', [n, lo, lo + step, seed + lo]) for lo in range(0, total, step)]
+
+
 def info(tier):
     return {
         'assumptions': ['five of the six operations depend on the shape only; shapes are enumerated, which is enumeration, not a solver verdict',
@@ -216,3 +226,7 @@ def info(tier):
                                 'native_sweep': 'N<=%d' % (5 if tier == 'quick' else 7)},
                      'stubs': []},
     }
+
+
+def batch_pairs(max_n, lo, hi, seed):
+    return pair_batch(__name__, 'ops', max_n, lo, hi, seed, 'two-models-in-sequence')
